@@ -1,5 +1,5 @@
 (* C10 — concurrent requests and block events behave as if executed one at a time.
-   Statements only (proofs: ConcTowerProofs.v, ConcBreach.v, ConcLin.v).  Model: ConcTower.v — the thread
+   Statements only (proofs: ConcTowerProofs.v, ConcBreach.v, ConcLin.v, ConcReg.v).  Model: ConcTower.v — the thread
    programs of register / add_appointment / get_appointment / block connected / block disconnected at
    lock-acquisition granularity, `run_sched` = all interleavings at EVENT granularity (every lock
    acquisition, release, action under locks and atomic height access is a step of its own).
@@ -14,6 +14,9 @@
                                                    lock's data): read-modify-write under one guard loses no update
      C10_single_charge_if_row_visible              the strongest true form of "charged once"
      C10_reads_linearizable                        get || get || ... : state and replies of every sequential order
+     C10_registrations_linearizable                register || register || ... (any number, same or different users):
+                                                   state and receipts of SOME sequential order
+     C10_concurrent_topups_all_counted             n concurrent renewals of one user: balance = initial + n top-ups
    REFUTED by a witness schedule (each is replayed on the real code by the check):
      C10_single_charge_refuted                     two identical submissions are charged twice
      C10_register_purge_not_linearizable           renewal acknowledged, user deleted
@@ -21,9 +24,10 @@
      C10_add_connect_not_linearizable              height stamps of neither order (the three guarantees hold)
    OPEN (no proof, no counterexample; the exhaustive controlled exploration of the check finds every final
    state of these pairs equal to a sequential order within its preemption bound):
-     register || register, register || add, add || add (different appointment), get || register/add/connect
+     register || add, add || add (different appointment), get || register/add/connect
      without purge, register/add/get || disconnect, register || connect without purge. *)
-From TeosModel Require Import Base TxIndex Tower TowerInv Crash ConcTower ConcTowerProofs ConcBreach ConcLin.
+From TeosModel Require Import Base TxIndex Tower TowerInv Crash ConcTower ConcTowerProofs ConcBreach ConcLin ConcReg.
+From Coq Require Import Permutation.
 From TeosModel.Gen Require Consts.
 Local Open Scope N_scope.
 
@@ -181,6 +185,32 @@ Proof. exact (get_readonly signer loc). Qed.
 Example C10_reads_instance : Forall readonly [get_p (Some 1) 7; get_p (Some 2) 7].
 Proof. constructor; [apply get_readonly|]. constructor; [apply get_readonly|constructor]. Qed.
 
+(* Any number of concurrent register requests (same or different users), any schedule in which they all
+   return: final state and receipts are those of the requests executed one after the other in some order
+   (seq_run: the thread programs run alone, one after the other = Tower.step by the first theorem). *)
+Theorem C10_registrations_linearizable t0 (us : list N) sched tf os :
+  run_sched t0 (map register_p us) sched = (tf, map (fun o => Some (TOut o)) os) ->
+  (forall o s, In o os -> o <> OAbort s) ->
+  exists order, Permutation order (seq 0 (length us)) /\
+                seq_run (map register_p us) t0 order = (tf, map (fun i => nth i os OBlockRes) order).
+Proof. exact (registrations_linearizable t0 us sched tf os). Qed.
+
+(* ... in particular no slot top-up is lost: n concurrent renewals add n times the configured slots *)
+Theorem C10_concurrent_topups_all_counted t0 u n ui sched tf os :
+  gk_get t0 u = Some ui -> u_slots ui + N.of_nat n * c_slots (cfg t0) <= U32MAX ->
+  run_sched t0 (repeat (register_p u) n) sched = (tf, map (fun o => Some (TOut o)) os) ->
+  (forall o s, In o os -> o <> OAbort s) ->
+  option_map u_slots (gk_get tf u) = Some (u_slots ui + N.of_nat n * c_slots (cfg t0)).
+Proof. exact (concurrent_topups_all_counted t0 u n ui sched tf os). Qed.
+
+(* non-vacuity: three renewals of user 1, interleaved inside and outside the critical sections, all return *)
+Example C10_registrations_instance :
+  let r := run_sched w_reg (repeat (register_p 1) 3) (repeat 0%nat 4 ++ repeat 1%nat 3 ++ repeat 2%nat 2 ++ repeat 0%nat 9 ++ repeat 2%nat 20 ++ repeat 1%nat 20) in
+  snd r = [Some (TOut (ORegisterRes (RegOk 20 120 920))); Some (TOut (ORegisterRes (RegOk 40 120 1720)));
+           Some (TOut (ORegisterRes (RegOk 30 120 1320)))] /\
+  option_map u_slots (gk_get (fst r) 1) = Some 40.
+Proof. vm_compute. split; reflexivity. Qed.
+
 (* ---- linearizability: what is refuted ----------------------------------------------------------------- *)
 
 (* register || the block that purges the user: the renewal is acknowledged (receipt with the extended
@@ -225,6 +255,8 @@ Print Assumptions C10_single_charge_refuted.
 Print Assumptions C10_single_charge_if_row_visible.
 Print Assumptions C10_reads_linearizable.
 Print Assumptions C10_get_is_read_only.
+Print Assumptions C10_registrations_linearizable.
+Print Assumptions C10_concurrent_topups_all_counted.
 Print Assumptions C10_register_purge_not_linearizable.
 Print Assumptions C10_get_purge_aborts.
 Print Assumptions C10_add_purge_aborts_and_poisons.
